@@ -55,7 +55,10 @@ class FakeDataset:
         cut = good[:good.rindex(b",")]                  # ends in the middle of the last row: "6" without a second column
         assert cut.endswith(b"\n6")
         if gz:
-            z = lambda b: _gzip.compress(b, mtime=0)
+            # a gzip file may consist of several members (cat a.gz b.gz, pigz -i): split at a line boundary
+            def z(b):
+                k = b.index(b"\n", len(b) // 2) + 1
+                return _gzip.compress(b[:k], mtime=0) + _gzip.compress(b[k:], mtime=0)
             zgood = z(good)
             self.payload = {"ok": zgood, "corrupt": z(bad), "truncated": zgood[:2 * len(zgood) // 3]}
         else:
@@ -1061,6 +1064,13 @@ def one_load(name, canon, doc, unpack, mode, home, fake_home, foreign=None, prev
     try:
         with warnings.catch_warnings():
             warnings.simplefilter("ignore")
+            if mode == "after_edit":
+                # the caller has loaded the same dataset before and overwritten what it got in place (it owns that array):
+                # the next load must still hand out the data
+                first = twd.load_dataset(name, unpack_dataset_columns=unpack)
+                for part in (first if isinstance(first, tuple) else (first,)):
+                    if isinstance(part, np.ndarray) and part.flags.writeable:
+                        part[...] = -7.0
             out = twd.load_dataset(name, unpack_dataset_columns=unpack)
         outcome = "ok"
     except BaseException as ex:  # noqa
